@@ -100,7 +100,97 @@ func monitorLeftovers(c *core.Ctx) {
 					"file_size": l.Size, "file_head": string(l.Head), "load_error": l.Err + l.Panic, "expected_jobs": len(*in2.N), "file_is": which})
 		}
 	})
+	monitorRestartSave(c)
 	if c.Counter("leftover.life1_left_a_temp_file") == 0 {
 		c.Inconclusive("leftover: no life-1 crash left a temp file behind")
 	}
+}
+
+// monitorRestartSave: a restarted file.d loads the offsets file and then saves
+// the table of the jobs it has NOW. Files that went away since (deleted,
+// rotated out) have no job any more; files whose offsets moved have new
+// values. The file must load back to exactly the table of the last save - an
+// entry that survives from the loaded file would make a new file that later
+// obtains the same inode number resume at a dead file's offset.
+func monitorRestartSave(c *core.Ctx) {
+	cases := c.N(24, 300)
+	core.ParallelFor(cases, 16, func(i int) {
+		rng := c.Rand(fmt.Sprintf("restart-save-%d", i))
+		o := genOpt{maxJobs: 6, safeOnly: true}
+		A := genTable(rng, o)
+		for len(norm(A)) < 2 {
+			A = genTable(rng, o)
+		}
+		// B: some jobs of A gone, some advanced, some untouched, some new
+		var B WTable
+		gone := 0
+		for k, j := range A {
+			switch r := rng.Intn(4); {
+			case r == 0 || (k == 0 && gone == 0):
+				gone++
+				continue
+			case r == 1:
+				nj := j
+				nj.Streams = nil
+				for _, st := range j.Streams {
+					if st.Off < 1<<62 {
+						st.Off += 1 + rng.Int63n(1<<20)
+					}
+					nj.Streams = append(nj.Streams, st)
+				}
+				B = append(B, nj)
+			default:
+				B = append(B, j)
+			}
+		}
+		nNew := rng.Intn(3)
+		if len(B) == 0 {
+			nNew = 1 + rng.Intn(2)
+		}
+		for k, n := 0, nNew; k < n; k++ {
+			B = append(B, WJob{File: []byte(fmt.Sprintf("/var/log/pods/fresh-%d-%d/app.log", i, k)), Inode: uint64(9000 + k), Src: uint64(1)<<42 + uint64(k), TS: 1700000000000000000,
+				Streams: []WStream{{Name: []byte("stdout"), Off: genOffset(rng)}}})
+		}
+		savesInLife2 := 1 + i%2
+		dir := scratchDir(fastScratch)
+		defer os.RemoveAll(dir)
+		cur := filepath.Join(dir, "offsets.yaml")
+		tmp := cur + ".atomic"
+		if res := runChild("save2", save2In{Cur: cur, Tmp: tmp, N: &A}, core.ChildOpt{Timeout: 2 * time.Minute, GOMAXPROCS: 2}); !res.Completed {
+			c.Inconclusive("restart-save: life 1 did not complete")
+			return
+		}
+		in2 := save2In{Cur: cur, Tmp: tmp, N: &B, LoadFirst: true}
+		if savesInLife2 == 2 {
+			in2.P = &A // the first save after the restart still has every job
+		}
+		if res := runChild("save2", in2, core.ChildOpt{Timeout: 2 * time.Minute, GOMAXPROCS: 2}); !res.Completed {
+			if os.Getenv("VERIF_C07_DEBUG") != "" {
+				fmt.Fprintln(os.Stderr, "LIFE2:", res.Signal, res.TimedOut, res.Stderr[max(0, len(res.Stderr)-1500):])
+			}
+			c.Inconclusive("restart-save: life 2 did not complete")
+			return
+		}
+		l, ok := loadFresh(cur)
+		if !ok {
+			c.Inconclusive("restart-save: loader child failed")
+			return
+		}
+		which := whichSnapshot(l, &A, &B)
+		c.Eval(1)
+		c.Count("restart_save.cases", 1)
+		c.Count("restart_save.jobs_gone_since_the_load", int64(gone))
+		c.Count("restart_save->"+which, 1)
+		c.Nontrivial(fmt.Sprintf("restart-save|gone=%d|jobs=%d|life2-saves-%d|%s", min(gone, 3), min(len(B), 4), savesInLife2, which))
+		if which != "N" && which != "P=N" {
+			d := ""
+			if l.Err == "" && l.Panic == "" && l.Exists {
+				d = diffTables(B, l.Loaded)
+			}
+			violOnce(c, "restart: an offsetDB that loaded the offsets file and then saved the table of its present jobs leaves a file that is "+describeWhich(which),
+				"life 1 saved table A; life 2 loaded the file, then saved table B (jobs of A that went away since are not in B); a fresh loader does not get exactly B",
+				map[string]any{"jobs_A": len(A), "jobs_B": len(B), "jobs_gone": gone, "saves_in_life_2": savesInLife2, "file_is": which, "difference_to_B": core.Trunc(d, 600),
+					"file_head": string(l.Head), "load_error": l.Err + l.Panic})
+		}
+	})
 }
